@@ -32,6 +32,13 @@ RULE = ('reference crystals: fcc/bcc/hcp/B2/L1_2 x 3 orientations (conventional,
         'rigid slip of one half (3 plane normals x 4 slip classes x 3 periodicity classes x wrapped or not); imposed '
         'displacement fields (8 pbc settings x 3 box references x 5 field classes); legacy differential_displacement. '
         'Every strain/slip case is repeated under a common translation (then wrap) and/or a consistent renumbering. '
+        'Round 4 - call histories: ONE Strain object read (12 ways), then changed (analysed system strained in place by box_set(scale) / '
+        'by writing positions, reference exchanged by build_p_vectors / set_p_vectors, theta_max, nothing, clear_properties, '
+        'deepcopy, caller overwrites what it was handed), solved again and read again (4 ways) x 5 ways of giving the '
+        'reference (incl. the neighbors attribute of the systems); the nyefield object given a second correspondence field; '
+        'slip_vector / disregistry / displacement / DifferentialDisplacement taken through a second slip state and back with '
+        'the same System, NeighborList and argument objects (6 histories x 3 ways of giving the neighbours x m,n,planepos as '
+        'ndarray/list/tuple); results kept by the caller are re-judged after the later calls. '
         'A case is non-trivial when the imposed deformation is not the identity / zero; distinct = distinct fingerprint '
         'of (positions, cell, deformation).')
 ASSUMPTIONS = ['every periodic width of the cell exceeds 2(cutoff + largest imposed relative displacement)/0.9, so the '
@@ -40,7 +47,13 @@ ASSUMPTIONS = ['every periodic width of the cell exceeds 2(cutoff + largest impo
                'neighbour sets contain no two collinear vectors (the p/q matching of Strain is by direction)',
                '|F - I|_Frobenius <= 0.03; slip planes lie 30-70 % of the way between two atomic layers',
                'the neighbour list itself is the subject of C03; here the oracle list only has to agree with it',
-               'oracle shares numpy/LAPACK with the code under test']
+               'oracle shares numpy/LAPACK with the code under test',
+               'call histories (round 4): every state an object or a pair of systems goes through satisfies the assumptions above '
+               '(|F1 - I| <= 0.02 and |Fref - I| <= 0.01 so that F1.Fref^-1 stays within 0.03; second slip |s2| <= 0.7|s|, |s - s2| <= 0.9|s|, so '
+               'that the pairs listed for one state keep a unique nearest image in the other); a change made behind an object\'s back '
+               '(system edited in place, reference exchanged) is followed by solve_G() / solve() / clear_properties() before reading',
+               'a caller may write to any array it was handed and may reuse an array it handed over once the call has returned '
+               '(staged as known findings where the unchanged code keeps or hands out such arrays)']
 
 T3 = (True, True, True)
 
@@ -233,6 +246,7 @@ def strain_outputs(ctx, am, cls, cry, sc, cutoff, theta, i, tag):
             nl0 = s0.neighborlist(cutoff=cutoff)
             st = am.defect.Strain(s1, neighbors=nl1, basesystem=s0, baseneighbors=nl0, theta_max=theta)
         else:
+            pkeep = [np.array(x) for x in p]
             st = am.defect.Strain(s1, cutoff=cutoff, p_vectors=p, axes=axes, theta_max=theta)
             out['p'], out['axes'] = p, axes
         out['G'] = np.array(st.G)
@@ -258,6 +272,11 @@ def strain_outputs(ctx, am, cls, cry, sc, cutoff, theta, i, tag):
             leg = am.defect.nye_tensor(s1, p, theta_max=theta, axes=axes, cutoff=cutoff)
             out['legacy'] = {k: np.array(v) for k, v in leg.items()}
             rec.count('legacy:solved')
+    if 'p' in out:
+        # (round 4) the reference vectors are an argument: Strain and nye_tensor leave them as they were
+        rec.check(len(out['p']) == len(pkeep) and all(np.array_equal(np.asarray(x), y) for x, y in zip(out['p'], pkeep)),
+                  'Strain and nye_tensor leave the reference vectors they were handed as they were', f'strain:{cls}:p-argument-changed')
+        rec.count('strain:p-argument-compared')
     return out
 
 
@@ -433,6 +452,36 @@ def run_nyefield_case(ctx, am, i):
                   rel_scale=scale)
         rec.count('nye:atoms-checked(linear field)', int(interior.sum()))
         rec.count('nye:nonzero-components-checked', int((np.abs(nye_exp) > 1e-3 * scale).sum()) * int(interior.sum() > 0))
+        # (round 4) the same object is handed a second set of reference vectors (another correspondence field) and solved again
+        A2 = rng.normal(size=(3, 3, 3))
+        A2 *= rng.uniform(0.01, 0.04) / (np.abs(A2).sum(axis=2).max() * ext)
+        Gi2 = np.eye(3) + np.einsum('abm,nm->nab', A2, pos - xc)
+        patom2 = np.array([sitev[s] @ Gi2[k] for k, s in enumerate(cry['site'])])
+        how2 = ['solve_G()', 'clear_properties()', 'solve_G(theta_max)'][i % 3]
+        kept_nye, kept_G = st.nye, st.G
+        G2 = nye2 = None
+        with ctx.guard('a Strain object accepts new reference vectors and can be solved again', f'nyefield:reset:{how2}'):
+            st.set_p_vectors([np.array(x) for x in patom2] if (i // 3) % 2 else patom2.copy())
+            if how2 == 'solve_G()':
+                st.solve_G()
+            elif how2 == 'clear_properties()':
+                st.clear_properties()
+            else:
+                st.solve_G(theta_max=27.0)
+            if i % 2:
+                nye2, G2 = np.array(st.nye), np.array(st.G)
+            else:
+                G2, nye2 = np.array(st.G), np.array(st.nye)
+        if G2 is not None and nye2 is not None:
+            rec.close(1e-9, G2[ok], Gi2[ok], 'new per-atom reference vectors p = q.G_i on the same object: the returned G is the new G_i',
+                      f'nyefield:reset:{how2}:G')
+            rec.close(1e-8 / a, nye2[interior], np.broadcast_to(O.nye_from_gradient(A2), (int(interior.sum()), 3, 3)),
+                      'new reference vectors on the same object: the Nye tensor is -curl of the new G field', f'nyefield:reset:{how2}:nye',
+                      gradG=A2)
+            rec.check(np.array_equal(kept_nye, st_nye) and np.array_equal(kept_G, Gm),
+                      'results handed out before are not overwritten by a later solve', f'nyefield:reset:{how2}:kept')
+            rec.count(f'nyefield:reset:{how2}')
+            rec.count('nye:atoms-checked(linear field, second reference)', int(interior.sum()))
     if how == 'Strain+legacy':
         leg = None
         with ctx.guard('legacy nye_tensor accepts per-atom reference vectors', 'nyefield:legacy'):
@@ -568,16 +617,14 @@ def check_slip(rec, out, sc, sl, nidx, expected, nacross, u, cutoff, cl, tag, m_
             rec.count('dd:ref1-pairs', cnt)
 
 
-def run_slip_case(ctx, am, i):
-    rec, rng = ctx.rec, ctx.rng
-    cl = strat_slip(i)
-    shrink = ctx.flavour == 'asan'
+def slip_setup(ctx, i, cl, maxatoms):
+    """The rigid-slip scenario of case i: crystal, periodicity, slip, disregistry direction."""
+    rng = ctx.rng
     lat, basis, types, fam, a0 = C.unit_cell(cl['struct'], np.random.default_rng(0))
     target = {'inplane-small': 0.2, 'inplane-large': 0.78, 'opening': 0.45, 'general': 0.5}[cl['sclass']]
     # need: 0.45 w >= cutoff + smax  (cutoff ~ 0.8-1.3 a); the generator takes a factor of the cutoff
     need = (1.0 + target / 0.8) / 0.45 * 1.03
-    cry = C.gen_crystal(rng, cl['struct'], cl['orient'], cl['shell'], 0, cl['origin'], need=need,
-                        maxatoms=700 if ctx.quick or shrink else 1400)
+    cry = C.gen_crystal(rng, cl['struct'], cl['orient'], cl['shell'], 0, cl['origin'], need=need, maxatoms=maxatoms)
     a, cutoff = cry['a'], cry['cutoff']
     axis = cl['axis']
     if cl['pbcclass'] == 'ppp':
@@ -603,6 +650,15 @@ def run_slip_case(ctx, am, i):
     cl['defaults'] = bool(np.allclose(sl['n'], [0, 1, 0], atol=1e-12) and i % 2 == 0)
     if cl['defaults']:
         m_vec = np.array([1.0, 0.0, 0.0])
+    return cry, sc, sl, u, pbc, m_vec
+
+
+def run_slip_case(ctx, am, i):
+    rec, rng = ctx.rec, ctx.rng
+    cl = strat_slip(i)
+    shrink = ctx.flavour == 'asan'
+    cry, sc, sl, u, pbc, m_vec = slip_setup(ctx, i, cl, 700 if ctx.quick or shrink else 1400)
+    a, cutoff, axis, s, pos0 = cry['a'], cry['cutoff'], cl['axis'], sl['s'], cry['pos']
     rec.case(('slip', cl['struct'], cl['orient'], 'axis%d' % axis, cl['sclass'], cl['pbcclass'], 'wrapped' if cl['wrapped'] else 'unwrapped',
               cl['variant'], 'ref%d' % cl['ref']), nontrivial=True, fp=fingerprint(pos0, cry['vects'], s, sl['hp']))
     for k_, v_ in cl.items():
@@ -630,7 +686,11 @@ def run_slip_case(ctx, am, i):
                     rec.count('disregistry:variant-exempt(wrap splits the adjoining layers)')
                 else:
                     planepos = planepos - np.floor(hpn / w) * sv.vects0[axis]
-        out = slip_outputs(ctx, am, sv, cutoff, cl, sl, i, planepos, m_vec, do_dis)
+        # the tools get their own copies of planepos, m and n; what they do to them is judged, not inherited
+        pp_arg, m_arg, sl_arg = planepos.copy(), m_vec.copy(), dict(sl, n=sl['n'].copy())
+        out = slip_outputs(ctx, am, sv, cutoff, cl, sl_arg, i, pp_arg, m_arg, do_dis)
+        rec.check(np.array_equal(pp_arg, planepos) and np.array_equal(m_arg, m_vec) and np.array_equal(sl_arg['n'], sl['n']),
+                  'disregistry leaves m, n and planepos as they were', 'disregistry:arguments-changed')
         out['planepos'], out['m'] = planepos, m_vec
         check_slip(rec, out, sv, sl, nidx, expected, nacross, u, cutoff, cl, '' if sv.kind == 'base' else 'variant:', m_vec, a)
         results[sv.kind] = (sv, out)
@@ -716,14 +776,23 @@ def run_displacement_case(ctx, am, i):
                         atoms_wrapped=nwrapped))
     sc = Scen(pos0, pos1, cry['types'], v0, v1, o0, o1, pbc)
     s0, s1 = sc.systems(am)
-    res = None
+    res = raw = None
     with ctx.guard('displacement can be evaluated for two systems with the same atoms', f'displacement:{ref}:call'):
         if ref == 'final' and i % 2:
-            res = np.array(am.displacement(s0, s1))
+            raw = am.displacement(s0, s1)
         else:
-            res = np.array(am.displacement(s0, s1, box_reference=ref))
+            raw = am.displacement(s0, s1, box_reference=ref)
+        res = np.array(raw)
     if res is None:
         return
+    if isinstance(raw, np.ndarray) and raw.shape == (n, 3):
+        # (round 4) the result belongs to the caller: writing to it does not move an atom of either system
+        if raw.flags.writeable:
+            raw[...] = 7.25
+        rec.check(np.array_equal(np.asarray(s0.atoms.pos), sc.pos0) and np.array_equal(np.asarray(s1.atoms.pos), sc.pos1),
+                  'the displacement handed out is the caller\'s own array (the systems keep their positions when it is written to)',
+                  f'displacement:{ref}:result-aliases-positions', field=field)
+        rec.count('displacement:result-aliasing-checked')
     L = np.linalg.norm(v0, axis=1).max() + np.abs(pos0).max()
     if res.shape != (n, 3):
         rec.fail('displacement returns one vector per atom', f'displacement:{ref}:shape', got=res.shape)
@@ -798,6 +867,469 @@ def run_legacydd_case(ctx, am, i):
     rec.count('legacy-dd:pairs-checked', len(exp))
 
 
+# ====================================================================== group 6: one Strain object, several states
+# (round 4) The ordinary use - a new Strain object per analysed state - is what groups 1 and 2 do.  Here ONE object
+# lives through a history: some of its results are read (and kept by the caller), then what G depends on is changed
+# (the analysed system strained in place, the reference exchanged, theta_max changed, nothing at all), the object is
+# solved again, everything is read again and judged against the deformation that is imposed NOW; what the caller kept
+# from before must still be what it was.
+CHANGES = ['boxset-scale', 'pos-inplace', 'ref-build', 'ref-set', 'theta', 'nothing', 'clear', 'deepcopy', 'overwrite']
+READ1 = ['all', 'strain', 'invariant3', 'angularvelocity', 'nye', 'asdict', 'save_to_system', 'rotation', 'invariant1',
+         'invariant2', 'G', 'none']
+READ2 = ['derived-first', 'G-first', 'asdict', 'save_to_system']
+RPSRC = ['base', 'p-atom', 'attr-nl', 'p-axes', 'base-nl']
+NAMES = ['G', 'strain', 'rotation', 'invariant1', 'invariant2', 'invariant3', 'angularvelocity', 'nye']
+DERIVED_FIRST = ['invariant3', 'angularvelocity', 'nye', 'invariant2', 'invariant1', 'rotation', 'strain', 'G']
+
+
+def strat_restrain(i):
+    c, k = i % 9, i // 9
+    return dict(struct=C.STRUCTS[i % 5], orient=C.ORIENTS[(i // 5) % 3], change=CHANGES[c], read1=READ1[(c + 5 * k) % 12],
+                read2=READ2[(i + i // 4) % 4], psrc=RPSRC[(i + i // 5) % 5], shell=(i // 3) % 3,
+                f1=C.FCLASSES[i % 5], f2='identity' if k % 4 == 3 else C.FCLASSES[(i + 2) % 5],
+                pbcclass='ppp' if i % 4 != 3 else 'free-' + 'abc'[(i // 4) % 3], origin=['zero', 'near', 'far'][(i // 7) % 3])
+
+
+def read_strain(st, how, names=NAMES):
+    """The results of a Strain object as the caller receives them (no copies): {name: array}."""
+    if how == 'asdict':
+        d = dict(st.asdict([n for n in names if n in ('G', 'rotation')]))
+        d.update(st.asdict() if len(names) == len(NAMES) else st.asdict([n for n in names if n not in ('G', 'rotation')]))
+        return {n: d[n] for n in names}
+    if how == 'save_to_system':
+        st.save_to_system([n for n in names if n in ('G', 'rotation')])
+        if len(names) == len(NAMES):
+            st.save_to_system()
+        else:
+            st.save_to_system([n for n in names if n not in ('G', 'rotation')])
+        return {n: np.array(st.system.atoms.view[n]) for n in names}
+    order = names if how == 'G-first' else [n for n in DERIVED_FIRST if n in names]
+    return {n: getattr(st, n) for n in order}
+
+
+def strain_expected(F):
+    Gexp = O.G_from_F(F)
+    e, r = O.strain_from_G(Gexp), O.rotation_from_G(Gexp)
+    i1, i2, i3 = O.invariants(e)
+    return dict(G=Gexp, strain=e, rotation=r, invariant1=i1, invariant2=i2, invariant3=i3, angularvelocity=O.angular_velocity(r),
+                nye=np.zeros((3, 3)))
+
+
+STOL = dict(G=1e-9, strain=1e-9, rotation=1e-9, invariant1=1e-9, invariant2=1e-10, invariant3=1e-11, angularvelocity=1e-9)
+
+
+def judge_some(rec, vals, F, m, mn, a, clause, key):
+    """Whatever subset of the results was read, against the imposed F."""
+    exp = strain_expected(F)
+    for name, v in vals.items():
+        mm = mn if name == 'nye' else m
+        v = np.asarray(v)
+        if v.shape[:1] != m.shape:
+            rec.fail(clause + f' ({name}: one value per atom)', f'{key}:{name}-shape', got=v.shape)
+            continue
+        rec.close(1e-8 / a if name == 'nye' else STOL[name], v[mm], np.broadcast_to(exp[name], (int(mm.sum()),) + np.shape(exp[name])),
+                  clause + f' ({name})', f'{key}:{name}', F=F)
+
+
+def strained_system(am, sc, F, which=1):
+    pos, v, o = sc.pos0 @ F.T, sc.vects0 @ F.T, F @ sc.origin0
+    return am.System(atoms=am.Atoms(atype=sc.types.copy(), pos=pos), box=am.Box(vects=v, origin=o), pbc=sc.pbc)
+
+
+def run_restrain_case(ctx, am, i):
+    import copy
+    rec, rng = ctx.rec, ctx.rng
+    cl = strat_restrain(i)
+    ch, psrc = cl['change'], cl['psrc']
+    cry = C.gen_crystal(rng, cl['struct'], cl['orient'], cl['shell'], 0, cl['origin'], need=2.45, maxatoms=350)
+    F1 = C.gen_F(rng, cl['f1'], maxnorm=0.02)
+    F2 = C.gen_F(rng, cl['f2'])
+    Fref = C.gen_F(rng, 'general', maxnorm=0.01)
+    pbc = T3 if cl['pbcclass'] == 'ppp' else tuple(k != 'abc'.index(cl['pbcclass'][-1]) for k in range(3))
+    cry = pad_free(cry, pbc)
+    cutoff, a = cry['cutoff'], cry['a']
+    theta = [27, 20, 35][int(rng.integers(0, 3))]
+    pos0 = cry['pos']
+    # sc.pos0 / vects0 / origin0 is the undeformed reference; the analysed system starts in state F1
+    sc = Scen(pos0, pos0 @ F1.T, cry['types'], cry['vects'], cry['vects'] @ F1.T, cry['origin'], F1 @ cry['origin'], pbc,
+              patom=np.array([cry['site_vectors'][s] for s in cry['site']]))
+    rec.case(('restrain', cl['struct'], cl['orient'], ch, cl['read1'], cl['read2'], psrc, cl['pbcclass']), nontrivial=True,
+             fp=fingerprint(pos0, cry['vects'], F1, F2, Fref))
+    for k_ in ('change', 'read1', 'read2', 'psrc'):
+        rec.count(f'class:restrain:{k_}={cl[k_]}')
+    if i < 9:
+        rec.sample(dict(group='restrain', classes=cl, natoms=sc.n, cutoff=cutoff, F1=F1, F2=F2, Fref=Fref, theta_max=theta))
+    nidx, nvec, margin = O.neighbours(sc.pos0, sc.vects0, sc.pbc, cutoff)
+    if margin < 0.035 * cutoff or not O.no_double_images(nidx) or min(len(x) for x in nidx) < 2:
+        rec.count('restrain:case-exempt')
+        return
+    m = np.array([len(v) >= 3 and np.linalg.matrix_rank(v, tol=1e-6 * a) == 3 and np.linalg.cond(v) < 50 for v in nvec])
+    mn = np.array([m[k] and m[nidx[k]].all() for k in range(sc.n)])
+    s0, s1 = sc.systems(am)
+    st = None
+    parg = None
+    with ctx.guard('Strain can be built for a homogeneously deformed crystal', f'reuse:{psrc}:build'):
+        if psrc == 'base':
+            st = am.defect.Strain(s1, cutoff=cutoff, basesystem=s0, theta_max=theta)
+        elif psrc == 'base-nl':
+            st = am.defect.Strain(s1, neighbors=s1.neighborlist(cutoff=cutoff), basesystem=s0,
+                                  baseneighbors=s0.neighborlist(cutoff=cutoff), theta_max=theta)
+        elif psrc == 'attr-nl':
+            # "... or system must have a neighbors attribute"
+            s1.neighbors = s1.neighborlist(cutoff=cutoff)
+            s0.neighbors = s0.neighborlist(cutoff=cutoff)
+            st = am.defect.Strain(s1, basesystem=s0, theta_max=theta)
+        else:
+            parg, axes, _ = p_argument(psrc, cry, sc, i)
+            if psrc == 'p-atom' and i % 2:
+                parg = [np.array(x) for x in parg]                  # a list of per-atom arrays
+            pkeep = [np.array(x) for x in parg] if np.ndim(parg) == 3 or isinstance(parg, list) else np.array(parg)
+            st = am.defect.Strain(s1, cutoff=cutoff, p_vectors=parg, axes=axes, theta_max=theta)
+    if st is None:
+        return
+    rec.count(f'reach:{ctx.flavour}:Strain')
+    if parg is not None:
+        # the caller's reference vectors are an argument, not scratch space
+        same = len(parg) == len(pkeep) and all(np.array_equal(np.asarray(x), y) for x, y in zip(parg, pkeep))
+        rec.check(same, 'Strain leaves the reference vectors it was handed as they were', f'reuse:{psrc}:p-argument-changed')
+        rec.count('restrain:p-argument-compared')
+
+    if psrc in ('p-atom', 'p-axes'):
+        # ... and a Strain object does not go on reading the caller's array: Strain solves lazily, the caller reuses its
+        # buffer between construction and the first read (a separate object on the same system; all array forms)
+        pcls = 'p-single' if psrc == 'p-atom' and (i // 5) % 2 else psrc
+        pb, axb, pcls = p_argument(pcls, cry, sc, (i // 10) % 2)                       # p-single: the bare array or [array]
+        g1 = None
+        with ctx.guard('Strain can be solved after the caller reused its reference-vector buffer', f'reuse:p-buffer:{pcls}:solve'):
+            stp = am.defect.Strain(s1, cutoff=cutoff, p_vectors=pb, axes=axb, theta_max=theta)
+            if isinstance(pb, np.ndarray):
+                pb[...] = pb[..., ::-1, :] * 1.7
+            else:
+                for x in pb:
+                    x[...] = x[::-1] * 1.7
+            g1 = np.array(stp.G)
+        rec.count(f'restrain:p-buffer-reused-before-the-lazy-solve:{pcls}')
+        rec.count('restrain:p-buffer-reused-before-the-lazy-solve')
+        if g1 is not None and g1.shape == (sc.n, 3, 3):
+            bad = float(np.abs(g1[m] - O.G_from_F(F1)).max())
+            rec.check(bad <= 1e-9, 'G = F^-T for the reference vectors given at construction, whatever the caller does with its '
+                      'array afterwards (Strain solves lazily)', 'strain:p-vectors-alias-the-callers-array', err=bad, form=pcls,
+                      axes=axb is not None)
+
+    # ---- state 1: read (part of) the results, keep them as handed out
+    names1 = {'all': NAMES, 'asdict': NAMES, 'save_to_system': NAMES, 'none': []}.get(cl['read1'], [cl['read1']])
+    how1 = cl['read1'] if cl['read1'] in ('asdict', 'save_to_system') else ('G-first' if i % 2 else 'derived-first')
+    kept, copies = {}, {}
+    with ctx.guard('Strain can be solved for a homogeneously deformed crystal', f'reuse:{psrc}:first-solve'):
+        kept = read_strain(st, how1, names1) if names1 else {}
+        copies = {n: np.array(v) for n, v in kept.items()}
+    judge_some(rec, copies, F1, m, mn, a, 'first state of a reused Strain object', f'reuse:first:{psrc}')
+    if names1 and any(n != 'G' for n in names1):
+        rec.count('restrain:derived-results-read-before-the-change')
+
+    # ---- the change
+    Fnow, target, nover = F1, st, 0
+    resolve = 'solve_G()'
+    with ctx.guard('a Strain object can be solved again after what it analyses has changed', f'reuse:{ch}:change'):
+        if ch in ('boxset-scale', 'clear', 'deepcopy'):
+            if ch == 'deepcopy':
+                target = copy.deepcopy(st)
+            sysn = target.system
+            sysn.box_set(vects=sc.vects0 @ F2.T, origin=F2 @ sc.origin0, scale=True)
+            Fnow = F2
+            if ch == 'clear':
+                resolve = 'clear_properties()'
+        elif ch == 'pos-inplace':
+            s1.atoms.pos[:] = sc.pos0 @ F2.T
+            s1.box_set(vects=sc.vects0 @ F2.T, origin=F2 @ sc.origin0)
+            Fnow = F2
+        elif ch == 'ref-build':
+            base2 = strained_system(am, sc, Fref)
+            if i % 2:
+                st.build_p_vectors(base2, cutoff=cutoff)
+            else:
+                st.build_p_vectors(base2, neighbors=base2.neighborlist(cutoff=cutoff))
+            Fnow = F1 @ np.linalg.inv(Fref)
+        elif ch == 'ref-set':
+            p2 = sc.patom @ Fref.T
+            st.set_p_vectors([np.array(x) for x in p2] if i % 2 else p2)
+            Fnow = F1 @ np.linalg.inv(Fref)
+        elif ch == 'theta':
+            theta2 = [t for t in (27, 20, 35) if t != theta][i % 2]
+            resolve = 'solve_G(theta_max)'
+        elif ch == 'overwrite':
+            resolve = None
+            for n_, v in kept.items():
+                if isinstance(v, np.ndarray) and v.flags.writeable and how1 != 'save_to_system':
+                    v[...] = 12345.678
+                    nover += 1
+            rec.count('restrain:handed-out-arrays-overwritten-by-the-caller', nover)
+        if resolve == 'solve_G()':
+            target.solve_G()
+            rec.count('restrain:solve_G()-without-argument')
+            if names1 and any(n != 'G' for n in names1) and ch != 'nothing':
+                rec.count('restrain:derived-read,changed,solve_G()-without-argument')
+        elif resolve == 'solve_G(theta_max)':
+            target.solve_G(theta_max=theta2)
+            rec.check(target.theta_max == theta2, 'solve_G(theta_max) sets theta_max', 'reuse:theta:theta_max')
+        elif resolve == 'clear_properties()':
+            target.clear_properties()
+        rec.count('restrain:changed')
+
+    # ---- state 2: everything is read again and judged against what is imposed now
+    out = None
+    with ctx.guard('a Strain object can be read again after a change and a new solve', f'reuse:{ch}:second-read'):
+        vals = read_strain(target, cl['read2'])
+        out = {n: np.array(v) for n, v in vals.items()}
+        out['neighbors'] = target.neighbors
+    if out is None:
+        return
+    if ch == 'overwrite':
+        # one mechanism, one key: the arrays handed out ARE the object's cache
+        bad = {}
+        exp = strain_expected(F1)
+        for n_ in NAMES:
+            mm = mn if n_ == 'nye' else m
+            tol = 1e-8 / a if n_ == 'nye' else STOL[n_]
+            if out[n_].shape[:1] == (sc.n,):
+                err = float(np.abs(out[n_][mm] - exp[n_]).max()) if mm.any() else 0.0
+                if not err <= tol:
+                    bad[n_] = err
+        rec.check(not bad, 'the results of a Strain object are those of the imposed deformation whatever the caller did to the '
+                  'arrays it was handed before', 'strain:handed-out-array-is-the-cache', wrong=bad, read_first=cl['read1'])
+        if nover:
+            rec.count('restrain:reread-after-the-caller-overwrote')
+        return
+    check_strain(rec, out, Fnow, sc, a, m, psrc, f'reuse:{ch}:')
+    rec.count(f'restrain:evaluated:{ch}')
+    # what the caller kept from state 1 is still what it was (no buffer handed out earlier is written to again)
+    if how1 != 'save_to_system':
+        for n_, v in kept.items():
+            rec.check(np.array_equal(np.asarray(v), copies[n_]), 'results handed out before are not overwritten by a later solve',
+                      f'reuse:{ch}:kept:{n_}')
+            rec.count('restrain:kept-results-rejudged')
+    if ch == 'nothing':
+        for n_, v in copies.items():
+            rec.close(1e-13, out[n_], v, 'solving again with nothing changed gives the same values', f'reuse:nothing:{n_}')
+    if ch == 'deepcopy':
+        # the original still analyses state F1
+        o1 = None
+        with ctx.guard('the copied-from Strain object can still be read', 'reuse:deepcopy:original'):
+            o1 = {n: np.array(v) for n, v in read_strain(st, 'G-first').items()}
+        if o1 is not None:
+            judge_some(rec, o1, F1, m, mn, a, 'the original of a deep-copied Strain object still reports its own state',
+                       'reuse:deepcopy:original')
+            rec.count('restrain:deepcopy-original-rejudged')
+
+
+# ====================================================================== group 7: slip tools called again
+# (round 4) The same System / NeighborList / DifferentialDisplacement / argument objects go through a second slip
+# state (positions edited in place, or a new system handed to the same object) and back to the first one.
+RESLIP = ['inplace', 'new-system1', 'resolve-cutoff', 'switch-reference', 'deepcopy', 'overwrite']
+
+
+def dd_expected(nl, uu):
+    return np.concatenate([uu[nl[k]] - uu[k] for k in range(len(nl)) if len(nl[k])] or [np.zeros((0, 3))])
+
+
+def run_reslip_case(ctx, am, i):
+    import copy
+    rec, rng = ctx.rec, ctx.rng
+    cl = strat_slip(i)
+    hist = RESLIP[(i + i // 6) % 6]
+    form = ['neighbors', 'cutoff', 'attribute'][(i + i // 3) % 3]
+    argform = ['ndarray', 'list', 'tuple'][(i // 2) % 3]
+    cry, sc, sl, u, pbc, m_vec = slip_setup(ctx, i, cl, 450)
+    a, cutoff, axis, s, pos0 = cry['a'], cry['cutoff'], cl['axis'], sl['s'], cry['pos']
+    e = rng.normal(size=3)
+    s2 = 0.4 * s + 0.3 * np.linalg.norm(s) * e / np.linalg.norm(e)
+    u2 = np.where(sl['upper'][:, None], s2, 0.0)
+    pos1a = sc.pos1
+    pos1b = C.wrap(pos0 + u2, cry['vects'], cry['origin'], pbc) if cl['wrapped'] else pos0 + u2
+    ref = cl['ref']
+    rec.case(('reslip', cl['struct'], cl['orient'], 'axis%d' % axis, cl['sclass'], cl['pbcclass'], hist, form, argform, 'ref%d' % ref),
+             nontrivial=True, fp=fingerprint(pos0, cry['vects'], s, s2, sl['hp']))
+    rec.count(f'class:reslip:hist={hist}')
+    rec.count(f'class:reslip:form={form}')
+    rec.count(f'class:reslip:argform={argform}')
+    if i < 6:
+        rec.sample(dict(group='reslip', classes=cl, history=hist, neighbours_given_as=form, m_n_planepos_given_as=argform, natoms=sc.n,
+                        s_first=s, s_second=s2, pbc=pbc))
+    nidx, nvec, margin = O.neighbours(pos0, cry['vects'], pbc, cutoff)
+    if margin < 1e-6 * cutoff or not O.no_double_images(nidx) or not (0 < sl['upper'].sum() < sc.n):
+        rec.count('reslip:case-exempt')
+        return
+    exp_slip = {1: O.slip_expected(nidx, sl['upper'], s), 2: O.slip_expected(nidx, sl['upper'], s2)}
+    uu = {1: u, 2: u2}
+    ss = {1: s, 2: s2}
+    s0, s1 = sc.systems(am)
+    nl0 = s0.neighborlist(cutoff=cutoff)
+    if form == 'attribute':
+        s0.neighbors = nl0
+    conv = {'ndarray': np.array, 'list': lambda x: [float(t) for t in x], 'tuple': lambda x: tuple(float(t) for t in x)}[argform]
+    m_arg, n_arg, pp_arg = conv(m_vec), conv(sl['n']), conv(sl['planepos'])
+    args_before = (np.array(m_arg), np.array(n_arg), np.array(pp_arg))
+    defaults_before = copy.deepcopy(am.defect.disregistry.__defaults__)
+    L = np.linalg.norm(cry['vects'], axis=1).max() + np.abs(pos0).max()
+
+    def functions(sys1, state, tag):
+        """slip_vector, disregistry, displacement on (s0, sys1), judged for slip state `state`."""
+        res = {}
+        with ctx.guard('slip_vector can be evaluated for a rigidly slipped crystal', f'reslip:{tag}:slip:call'):
+            if form == 'neighbors':
+                res['slip'] = am.defect.slip_vector(s0, sys1, neighbors=nl0)
+            elif form == 'cutoff':
+                res['slip'] = am.defect.slip_vector(s0, sys1, cutoff=cutoff)
+            else:
+                res['slip'] = am.defect.slip_vector(s0, sys1)
+            rec.count(f'reach:{ctx.flavour}:slip_vector')
+        with ctx.guard('disregistry can be evaluated for a slip plane between two atomic layers', f'reslip:{tag}:disregistry:call'):
+            if cl.get('defaults'):
+                res['coord'], res['dis'] = am.defect.disregistry(s0, sys1, planepos=pp_arg)
+            else:
+                res['coord'], res['dis'] = am.defect.disregistry(s0, sys1, m=m_arg, n=n_arg, planepos=pp_arg)
+        with ctx.guard('displacement can be evaluated for two systems with the same atoms', f'reslip:{tag}:displacement:call'):
+            res['disp'] = am.displacement(s0, sys1)
+        expv, nac = exp_slip[state]
+        if 'slip' in res:
+            sv = np.asarray(res['slip'])
+            if sv.shape != (sc.n, 3):
+                rec.fail('slip_vector returns one vector per atom', f'reslip:{tag}:slip:shape', got=sv.shape)
+            else:
+                rec.close(1e-9 * (1 + nac.max()), sv, expv, 'slip vector = (own-half displacement - other-half displacement) x number '
+                          'of neighbours across the plane, for the slip imposed NOW', f'reslip:{tag}:slip', s=ss[state], pbc=pbc)
+                rec.count(f'reslip:slip-judged:{tag}')
+        if 'dis' in res:
+            dis = np.asarray(res['dis'])
+            if dis.ndim != 2 or dis.shape[1:] != (3,) or len(dis) == 0:
+                rec.fail('disregistry returns N coordinates and an (N,3) array', f'reslip:{tag}:disregistry:shape', got=dis.shape)
+            else:
+                rec.close(1e-9, dis, np.broadcast_to(ss[state], dis.shape), 'disregistry across the slip plane equals the slip imposed NOW',
+                          f'reslip:{tag}:disregistry', s=ss[state], pbc=pbc)
+                rec.count(f'reslip:disregistry-judged:{tag}')
+        if 'disp' in res:
+            d = np.asarray(res['disp'])
+            if d.shape != (sc.n, 3):
+                rec.fail('displacement returns one vector per atom', f'reslip:{tag}:displacement:shape', got=d.shape)
+            else:
+                rec.close(1e-11 * L, d, uu[state], 'displacement returns the displacement imposed NOW', f'reslip:{tag}:displacement',
+                          s=ss[state], pbc=pbc)
+                rec.count(f'reslip:displacement-judged:{tag}')
+        return res
+
+    def dd_judge(ddo, state, tag, want_ref):
+        vec = nl = None
+        with ctx.guard('the differential displacements can be read', f'reslip:{tag}:dd:read'):
+            vec = ddo.ddvectors
+            nl = [np.asarray(ddo.neighbors[k], int) for k in range(sc.n)]
+        if vec is None or nl is None:
+            return None
+        expd = dd_expected(nl, uu[state])
+        v = np.asarray(vec)
+        if v.shape != expd.shape:
+            rec.fail('ddvectors lists one vector per neighbour pair', f'reslip:{tag}:dd:shape', got=v.shape, expected=expd.shape)
+            return vec
+        rec.close(1e-9, v, expd, 'differential displacement of a pair = difference of the two displacements imposed NOW',
+                  f'reslip:{tag}:dd', s=ss[state], pbc=pbc)
+        rec.check(ddo.reference == want_ref, 'DifferentialDisplacement remembers its reference system', f'reslip:{tag}:dd:reference')
+        rec.count(f'reslip:dd-judged:{tag}')
+        rec.count('reslip:dd-pairs-across-plane', int((np.abs(expd).max(axis=1) > 0).sum()) if len(expd) else 0)
+        return vec
+
+    # ---- state A
+    resA = functions(s1, 1, 'first')
+    dd = None
+    with ctx.guard('DifferentialDisplacement can be solved for a rigidly slipped crystal', 'reslip:first:dd:call'):
+        if form == 'neighbors':
+            dd = am.defect.DifferentialDisplacement(s0, s1, neighbors=(s0 if ref == 0 else s1).neighborlist(cutoff=cutoff), reference=ref)
+        elif form == 'cutoff':
+            dd = am.defect.DifferentialDisplacement(s0, s1, cutoff=cutoff, reference=ref)
+        else:
+            dd = am.defect.DifferentialDisplacement(s0, s1, reference=ref)
+            dd.solve(cutoff=cutoff)
+    ddA = dd_judge(dd, 1, 'first', ref) if dd is not None else None
+    keptA = {k: v for k, v in resA.items() if isinstance(v, np.ndarray)}
+    if isinstance(ddA, np.ndarray):
+        keptA['dd'] = ddA
+    copiesA = {k: np.array(v) for k, v in keptA.items()}
+
+    # ---- state B
+    sysB, ddB, refB = s1, dd, ref
+    with ctx.guard('the slip tools can be used again on a second slip state', f'reslip:{hist}:change'):
+        if hist == 'new-system1':
+            sysB = am.System(atoms=am.Atoms(atype=sc.types.copy(), pos=pos1b.copy()),
+                             box=am.Box(vects=sc.vects1.copy(), origin=sc.origin1.copy()), pbc=sc.pbc)
+            if dd is not None:
+                dd.solve(system1=sysB)
+        elif hist == 'deepcopy' and dd is not None:
+            ddB = copy.deepcopy(dd)
+            sysB = ddB.system1
+            sysB.atoms.pos[:] = pos1b
+            ddB.solve()
+        else:
+            if hist == 'overwrite':
+                nover = 0
+                for k_, v in keptA.items():
+                    if v.flags.writeable:
+                        v[...] = -4321.5
+                        nover += 1
+                rec.count('reslip:handed-out-arrays-overwritten-by-the-caller', nover)
+                if dd is not None and 'dd' in keptA:
+                    again = np.asarray(dd.ddvectors)
+                    bad = again.shape != copiesA['dd'].shape or not np.array_equal(again, copiesA['dd'])
+                    rec.check(not bad, 'the differential displacements of a solved object are those of the imposed slip whatever the '
+                              'caller did to the array it was handed before', 'dd:handed-out-array-is-the-cache')
+                    rec.count('reslip:dd-reread-after-the-caller-overwrote')
+            s1.atoms.pos[:] = pos1b
+            if dd is not None:
+                if hist == 'resolve-cutoff':
+                    dd.solve(cutoff=cutoff)
+                elif hist == 'switch-reference':
+                    refB = 1 - ref
+                    dd.solve(reference=refB)
+                else:
+                    dd.solve()
+        rec.count('reslip:changed')
+    functions(sysB, 2, hist)
+    if ddB is not None:
+        dd_judge(ddB, 2, hist, refB)
+    if hist == 'deepcopy' and dd is not None:
+        dd.solve()
+        dd_judge(dd, 1, 'deepcopy-original', ref)
+    if hist != 'overwrite':
+        for k_, v in keptA.items():
+            rec.check(np.array_equal(v, copiesA[k_]), 'results handed out before are not overwritten by later calls',
+                      f'reslip:{hist}:kept:{k_}')
+            rec.count('reslip:kept-results-rejudged')
+
+    # ---- back to state A: an equal call gives an equal value whatever happened in between
+    if hist not in ('new-system1', 'deepcopy'):
+        s1.atoms.pos[:] = pos1a
+    resC = functions(s1, 1, 'again')
+    for k_ in ('slip', 'coord', 'dis', 'disp'):
+        if k_ in resC and k_ in copiesA and np.shape(resC[k_]) == copiesA[k_].shape:
+            rec.close(1e-12 * L, np.asarray(resC[k_]), copiesA[k_], 'the same call on the same state gives the same value whatever was '
+                      'computed in between', f'reslip:again:{k_}')
+            rec.count('reslip:repeat-compared')
+    if dd is not None and hist != 'deepcopy':
+        with ctx.guard('DifferentialDisplacement can be solved again', 'reslip:again:dd:call'):
+            if hist == 'new-system1':
+                dd.solve(system1=s1)
+            elif hist == 'switch-reference':
+                dd.solve(reference=ref)
+            else:
+                dd.solve()
+        dd_judge(dd, 1, 'again', ref)
+    # arguments and default-argument objects are as they were
+    now = (np.array(m_arg), np.array(n_arg), np.array(pp_arg))
+    rec.check(all(np.array_equal(x, y) for x, y in zip(now, args_before)), 'disregistry leaves m, n and planepos as they were',
+              'reslip:disregistry:arguments-changed', form=argform)
+    rec.check(am.defect.disregistry.__defaults__ == defaults_before and
+              [list(x) for x in am.defect.disregistry.__defaults__] == [[1.0, 0.0, 0.0], [0.0, 1.0, 0.0], [0.0, 0.0, 0.0]],
+              'the default m, n and planepos of disregistry stay the documented ones', 'reslip:disregistry:defaults-changed')
+    rec.count('reslip:arguments-compared')
+
+
 # ====================================================================== driver
 def run(ctx):
     import atomman as am
@@ -817,6 +1349,10 @@ def run(ctx):
         run_slip_case(ctx, am, i)
     for i in ctx.cases('displacement', ctx.pick(120, 1080) // div):
         run_displacement_case(ctx, am, i)
+    for i in ctx.cases('restrain', ctx.pick(54, 432) // div):
+        run_restrain_case(ctx, am, i)
+    for i in ctx.cases('reslip', ctx.pick(36, 288) // div):
+        run_reslip_case(ctx, am, i)
     if not asan:
         for i in ctx.cases('legacy-dd', ctx.pick(8, 40)):
             run_legacydd_case(ctx, am, i)
@@ -885,3 +1421,40 @@ def run(ctx):
         rec.floor(f'class:displacement:field={fl}', f(16))
     if not asan:
         rec.floor('legacy-dd:pairs-checked', 2000)
+    # ---- round 4: one object / the same argument objects through several states
+    for ch in CHANGES:
+        rec.floor(f'class:restrain:change={ch}', f(5))
+        if ch != 'overwrite':
+            rec.floor(f'restrain:evaluated:{ch}', f(4))
+    for r in READ1:
+        rec.floor(f'class:restrain:read1={r}', f(3))
+    for r in READ2:
+        rec.floor(f'class:restrain:read2={r}', f(8))
+    for p in RPSRC:
+        rec.floor(f'class:restrain:psrc={p}', f(6))
+    rec.floor('restrain:derived-read,changed,solve_G()-without-argument', f(16))
+    rec.floor('restrain:kept-results-rejudged', f(60))
+    rec.floor('restrain:deepcopy-original-rejudged', f(4))
+    rec.floor('restrain:reread-after-the-caller-overwrote', f(2))
+    rec.floor('restrain:p-argument-compared', f(12))
+    rec.floor('restrain:p-buffer-reused-before-the-lazy-solve', f(12))
+    for h in RESLIP:
+        rec.floor(f'class:reslip:hist={h}', f(5))
+        for tool in ('slip', 'disregistry', 'displacement', 'dd'):
+            rec.floor(f'reslip:{tool}-judged:{h}', f(4))
+    for tool in ('slip', 'disregistry', 'displacement', 'dd'):
+        rec.floor(f'reslip:{tool}-judged:again', f(20))
+    for x in ('neighbors', 'cutoff', 'attribute'):
+        rec.floor(f'class:reslip:form={x}', f(8))
+    for x in ('ndarray', 'list', 'tuple'):
+        rec.floor(f'class:reslip:argform={x}', f(8))
+    rec.floor('reslip:kept-results-rejudged', f(80))
+    rec.floor('reslip:repeat-compared', f(80))
+    rec.floor('reslip:arguments-compared', f(24))
+    rec.floor('reslip:dd-pairs-across-plane', f(20000))
+    rec.floor('reslip:dd-reread-after-the-caller-overwrote', f(4))
+    for h in ('solve_G()', 'clear_properties()', 'solve_G(theta_max)'):
+        rec.floor(f'nyefield:reset:{h}', f(10))
+    rec.floor('nye:atoms-checked(linear field, second reference)', f(1500))
+    rec.floor('displacement:result-aliasing-checked', f(100))
+    rec.floor('strain:p-argument-compared', f(60))
